@@ -170,6 +170,7 @@ func (p *Program) installIntrinsics() {
 	p.installFmtStrings()
 	p.installDeepCopy()
 	p.installOS()
+	p.installURL()
 	p.installVerif()
 }
 
@@ -219,7 +220,7 @@ func (m *Machine) hashBytes(ts []*Term) Value {
 	b, conc := termsConcrete(ts)
 	if conc && (!m.absHash || (m.absHashPrefix != "" && !strings.HasPrefix(string(b), m.absHashPrefix))) {
 		r := K(64, xxhash.Sum64(b))
-		if m.absHash {
+		if true { // always recorded: a later hash of symbolic bytes must agree with it
 			// abstract hashes must not collide with the real hashes of other byte strings either
 			key := "c:" + string(b)
 			if _, ok := m.hashVars[key]; !ok {
